@@ -259,9 +259,18 @@ func (of *orderFlow) run() {
 			}
 			of.analyseIteration(it)
 		}
+		if of.isDayProcessorValue(v) {
+			// the day processor hands the per-kind slices of its day to the callbacks
+			// of one stage, directly or through helper methods: that dispatch is
+			// modelled stage by stage (A-stage), not as a flow of the slice
+			continue
+		}
 		for _, r := range *v.Referrers() {
 			if of.sortedBefore(v, r) {
 				continue
+			}
+			if of.loadSanitisedByProcess(v, fn, r) != "" {
+				continue // sorted by a stage of a Process call that dominates this use
 			}
 			fname := originName(r.Parent())
 			switch x := r.(type) {
@@ -948,8 +957,15 @@ func (of *orderFlow) sortersOf(fv *types.Var) map[*ssa.Function]bool {
 // days of journal j, and a j.Process(...) call whose processors include a
 // sorter of that field (and no later tainter) dominates the loop.
 func (of *orderFlow) sanitisedByProcess(it *iteration) string {
+	return of.loadSanitisedByProcess(it.source, it.fn, it.header.Instrs[len(it.header.Instrs)-1])
+}
+
+// loadSanitisedByProcess: v is a load of a tainted per-kind field of a day of
+// journal j, and a j.Process(...) call whose stages leave that field totally
+// sorted dominates the instruction `at` in fn.
+func (of *orderFlow) loadSanitisedByProcess(v ssa.Value, fn *ssa.Function, at ssa.Instruction) string {
 	p := of.oa.p
-	ld, ok := it.source.(*ssa.UnOp)
+	ld, ok := v.(*ssa.UnOp)
 	if !ok {
 		return ""
 	}
@@ -981,37 +997,16 @@ func (of *orderFlow) sanitisedByProcess(it *iteration) string {
 	}
 	sorters := of.sortersOf(fv)
 	result := ""
-	core.EachInstr(it.fn, func(ins ssa.Instruction) {
+	core.EachInstr(fn, func(ins ssa.Instruction) {
 		call, ok := ins.(*ssa.Call)
 		if !ok || call.Call.StaticCallee() != processFn || !p.SameExpr(call.Call.Args[0], journal) {
 			return
 		}
-		if !core.Dominates(call, it.header.Instrs[len(it.header.Instrs)-1]) {
+		if !core.Dominates(call, at) {
 			return
 		}
-		// processors handed over: elements of the varargs array, in order
-		var procs []ssa.Value
-		if sl, ok := call.Call.Args[1].(*ssa.Slice); ok {
-			if arr, ok := sl.X.(*ssa.Alloc); ok && arr.Referrers() != nil {
-				type el struct {
-					idx int64
-					v   ssa.Value
-				}
-				var els []el
-				for _, r := range *arr.Referrers() {
-					if ia, ok := r.(*ssa.IndexAddr); ok {
-						i, _ := core.ConstInt(ia.Index)
-						for _, st := range core.StoresTo(ia) {
-							els = append(els, el{i, st.Val})
-						}
-					}
-				}
-				sort.Slice(els, func(a, b int) bool { return els[a].idx < els[b].idx })
-				for _, e := range els {
-					procs = append(procs, e.v)
-				}
-			}
-		}
+		// processors handed over, in order
+		procs, _ := processorList(call.Call.Args[1], 0)
 		sorted := false
 		var names []string
 		for _, pv := range procs {
@@ -1060,6 +1055,22 @@ func (of *orderFlow) isDayProcessorLoop(it *iteration) bool {
 	}
 	ld, ok := it.source.(*ssa.UnOp)
 	if !ok {
+		return false
+	}
+	fa, ok := ld.X.(*ssa.FieldAddr)
+	if !ok {
+		return false
+	}
+	_, isKind := dayKindCallbacks[core.FieldOf(fa).Name()]
+	return isKind && fa.X == ssa.Value(proc.Params[1])
+}
+
+// isDayProcessorValue: v is the load of a per-kind slice of the day parameter
+// of Processor.Process.
+func (of *orderFlow) isDayProcessorValue(v ssa.Value) bool {
+	proc := of.oa.p.Func(pkgJournal, "Processor.Process")
+	ld, ok := v.(*ssa.UnOp)
+	if !ok || proc == nil || ld.Parent() != proc || len(proc.Params) < 2 {
 		return false
 	}
 	fa, ok := ld.X.(*ssa.FieldAddr)
@@ -1337,7 +1348,7 @@ func (of *orderFlow) analyseArrivalCallbacks() {
 			if !fromLoader {
 				return
 			}
-			cb := core.FuncValue(call.Call.Args[2])
+			cb := core.FuncValueDeep(call.Call.Args[2])
 			fname := originName(fn)
 			key := fname + ":per-file callback over the loader's channel"
 			if cb == nil {
